@@ -266,6 +266,18 @@ def rule_peek_many(col, facts, crates=("lexical_util",)):
                         s = sizeofs.get(rhs[3])
                     if lhs[0] == "call" and lhs[1].endswith("::len") and any(x[1].endswith("Iter::as_slice") and root(x[2][0]) == root(op_expr(f, a[0])) for x in expr_calls(lhs)) and s == size:
                         ok = True
+            if not ok:
+                # the length test may live in a helper that is handed the same iterator (`if !can_peek_many::<Self,
+                # V>(self) { return None }`): a guard in a form this rule does not read - recorded as not decided
+                recv = root(op_expr(f, a[0]))
+                helper = None
+                for _d, e, pol in conds:
+                    for c2 in expr_calls(e):
+                        if facts.by_short.get(c2[1]) and any(g.crate == f.crate for g in facts.by_short[c2[1]]) and any(root(x) == recv for x in c2[2]):
+                            helper = c2[1]
+                if helper:
+                    col.assumed("not-applied", "GRD-peek-many:%s::<%s>" % (f.short, v), "peek_many_unchecked::<%s> is dominated by a test of the helper %s on the same iterator; what that helper establishes is not decided" % (v, helper), f.loc(f.blocks[bb]["ts"]))
+                    continue
             col.check(R, "%s::<%s>" % (f.short, v), ok and size is not None,
                       "peek_many_unchecked::<%s> without a dominating `self.as_slice().len() >= size_of::<%s>()`" % (v, v), f.loc(f.blocks[bb]["ts"]))
     col.floor(R, "peek_many_unchecked sites", n, 2)
